@@ -1,5 +1,5 @@
 use super::Graph;
-use crate::{Error, ErrorKind};
+use crate::{ext::iterator::sum_sorted, Error, ErrorKind};
 use std::collections::HashMap;
 use std::fmt::Display;
 use std::hash::Hash;
@@ -242,13 +242,14 @@ where
         match self.get_edges_for_node(node_name.clone()) {
             Err(_) => None,
             Ok(edges) => {
-                let total_weight: f64 = edges.iter().map(|e| e.weight).sum();
+                let total_weight: f64 = sum_sorted(edges.iter().map(|e| e.weight));
                 // self-loops are double-counted: https://en.wikipedia.org/wiki/Loop_(graph_theory)
-                let self_loops_weight: f64 = edges
-                    .iter()
-                    .filter(|e| e.u == node_name && e.v == node_name)
-                    .map(|e| e.weight)
-                    .sum();
+                let self_loops_weight: f64 = sum_sorted(
+                    edges
+                        .iter()
+                        .filter(|e| e.u == node_name && e.v == node_name)
+                        .map(|e| e.weight),
+                );
                 Some(total_weight + self_loops_weight)
             }
         }
@@ -281,7 +282,7 @@ where
     pub fn get_node_weighted_in_degree(&self, node_name: T) -> Option<f64> {
         match self.get_in_edges_for_node(node_name) {
             Err(_) => None,
-            Ok(edges) => Some(edges.iter().map(|e| e.weight).sum()),
+            Ok(edges) => Some(sum_sorted(edges.iter().map(|e| e.weight))),
         }
     }
 
@@ -312,7 +313,7 @@ where
     pub fn get_node_weighted_out_degree(&self, node_name: T) -> Option<f64> {
         match self.get_out_edges_for_node(node_name) {
             Err(_) => None,
-            Ok(edges) => Some(edges.iter().map(|e| e.weight).sum()),
+            Ok(edges) => Some(sum_sorted(edges.iter().map(|e| e.weight))),
         }
     }
 
